@@ -140,7 +140,7 @@ missing, for *any* local reference value and *any* increment width up to the ele
 partial request `from..to` returns exactly that slice and leaves the cursor after the column -/
 theorem getNumericCompressed_listed (r : R) (cb : Node) (col : List Node) (g : Range) (r0 k : Nat)
     (incs : List Nat) (rest : List Bool) (hI : RInv r) (hnb : 1 ≤ cb.enc.nbits ∧ cb.enc.nbits ≤ 64)
-    (hk0 : 0 < k) (hk : (k : Int) ≤ cb.enc.nbits) (hk63 : k < 63) (hg : g.OK) (hlen : incs.length = g.nsub)
+    (hk0 : 0 < k) (hk : (k : Int) ≤ cb.enc.nbits) (hk63 : k < 64) (hg : g.OK) (hlen : incs.length = g.nsub)
     (hb : r.bits = bitsMSB cb.enc.nbits.toNat r0 ++ bitsMSB 6 k ++ incs.flatMap (bitsMSB k) ++ rest) :
     ∃ r', getNumericCompressed r (cb :: col) g =
         some (r', zipWithNodes (fun n v => setBitsValue n
@@ -219,10 +219,561 @@ theorem getNumericCompressed_listed (r : R) (cb : Node) (col : List Node) (g : R
   unfold getNumericCompressed
   simp only [e1, e2]
   have hng : ¬ (((k : Nat) : Int) > cb.enc.nbits) := by omega
-  have h63 : ¬ (k = 63) := by omega
   have hk0' : ¬ (k = 0) := by omega
-  simp only [hng, h63, if_false, hk0']
-  simp only [e3, e4, e5]
+  simp only [hng, and_false, if_false, hk0']
+  try simp only [e3, e4, e5]
   simp [mid]
+
+/-! ### compressed numeric column, writer side -/
+
+theorem foldl_min_le (l : List Nat) : ∀ (a : Nat), l.foldl min a ≤ a ∧ (∀ v ∈ l, l.foldl min a ≤ v) ∧
+    (l.foldl min a = a ∨ l.foldl min a ∈ l) := by
+  induction l with
+  | nil => intro a; simp
+  | cons x xs ih =>
+    intro a
+    obtain ⟨h1, h2, h3⟩ := ih (min a x)
+    simp only [List.foldl_cons]
+    refine ⟨by omega, ?_, ?_⟩
+    · intro v hv
+      rcases List.mem_cons.mp hv with rfl | hv
+      · omega
+      · exact h2 v hv
+    · rcases h3 with h | h
+      · by_cases hax : a ≤ x
+        · left; rw [h]; omega
+        · right; rw [h]; simp; left; omega
+      · right; simp [h]
+
+theorem foldl_max_ge (l : List Nat) : ∀ (a : Nat), a ≤ l.foldl max a ∧ (∀ v ∈ l, v ≤ l.foldl max a) ∧
+    (l.foldl max a = a ∨ l.foldl max a ∈ l) := by
+  induction l with
+  | nil => intro a; simp
+  | cons x xs ih =>
+    intro a
+    obtain ⟨h1, h2, h3⟩ := ih (max a x)
+    simp only [List.foldl_cons]
+    refine ⟨by omega, ?_, ?_⟩
+    · intro v hv
+      rcases List.mem_cons.mp hv with rfl | hv
+      · omega
+      · exact h2 v hv
+    · rcases h3 with h | h
+      · by_cases hax : x ≤ a
+        · left; rw [h]; omega
+        · right; rw [h]; simp; left; omega
+      · right; simp [h]
+
+theorem listMin_spec (l : List Nat) (d : Nat) (hne : l ≠ []) :
+    (∀ v ∈ l, listMin l d ≤ v) ∧ listMin l d ∈ l := by
+  cases l with
+  | nil => exact absurd rfl hne
+  | cons x xs =>
+    unfold listMin
+    simp only [List.headD_cons]
+    obtain ⟨h1, h2, h3⟩ := foldl_min_le (x :: xs) x
+    refine ⟨h2, ?_⟩
+    rcases h3 with h | h
+    · rw [h]; simp
+    · exact h
+
+theorem listMax_spec (l : List Nat) (d : Nat) (hne : l ≠ []) :
+    (∀ v ∈ l, v ≤ listMax l d) ∧ listMax l d ∈ l := by
+  cases l with
+  | nil => exact absurd rfl hne
+  | cons x xs =>
+    unfold listMax
+    simp only [List.headD_cons]
+    obtain ⟨h1, h2, h3⟩ := foldl_max_ge (x :: xs) x
+    refine ⟨h2, ?_⟩
+    rcases h3 with h | h
+    · rw [h]; simp
+    · exact h
+
+theorem foldl_putbits_bits (k : Nat) (f : Nat → Nat) : ∀ (vals : List Nat) (w : W), WInv w →
+    (vals.foldl (fun w v => w.putbits (f v) k) w).bits = w.bits ++ (vals.map f).flatMap (bitsMSB k) ∧
+    WInv (vals.foldl (fun w v => w.putbits (f v) k) w) := by
+  intro vals
+  induction vals with
+  | nil => intro w h; simp [h]
+  | cons v vs ih =>
+    intro w h
+    obtain ⟨p1, p2⟩ := putbits_bits w (f v) k h
+    obtain ⟨q1, q2⟩ := ih _ p2
+    simp only [List.foldl_cons, List.map_cons, List.flatMap_cons]
+    exact ⟨by rw [q1, p1, List.append_assoc], q2⟩
+
+/-- **wire format of a compressed numeric column**: local reference value in the element width,
+6-bit increment width, one increment per subset -/
+theorem putNumericCompressed_bits (w : W) (hI : WInv w) (n0 : Node) (rest : List Node) :
+    (putNumericCompressed w (n0 :: rest)).bits =
+      w.bits ++ (bitsMSB n0.enc.nbits.toNat (encNumCol n0.enc.nbits ((n0 :: rest).map value2bits)).1 ++
+        bitsMSB 6 (encNumCol n0.enc.nbits ((n0 :: rest).map value2bits)).2.1 ++
+        (encNumCol n0.enc.nbits ((n0 :: rest).map value2bits)).2.2.flatMap
+          (bitsMSB (encNumCol n0.enc.nbits ((n0 :: rest).map value2bits)).2.1)) ∧
+    WInv (putNumericCompressed w (n0 :: rest)) := by
+  unfold putNumericCompressed
+  simp only
+  obtain ⟨p1, p2⟩ := putbits_bits w (encNumCol n0.enc.nbits ((n0 :: rest).map value2bits)).1 n0.enc.nbits.toNat hI
+  obtain ⟨q1, q2⟩ := putbits_bits _ (encNumCol n0.enc.nbits ((n0 :: rest).map value2bits)).2.1 6 p2
+  obtain ⟨s1, s2⟩ := foldl_putbits_bits (encNumCol n0.enc.nbits ((n0 :: rest).map value2bits)).2.1 id
+    (encNumCol n0.enc.nbits ((n0 :: rest).map value2bits)).2.2 _ q2
+  simp only [id, List.map_id'] at s1 s2
+  refine ⟨?_, s2⟩
+  rw [s1, q1, p1]; simp
+
+/-! ### what the encoder's column denotes -/
+
+theorem missingIvalue_nat (k : Nat) (h1 : 1 ≤ k) (h2 : k < 64) : missingIvalue (k : Int) = 2^k - 1 := by
+  unfold missingIvalue
+  rw [if_neg (by omega), if_neg (by omega)]
+  simp
+
+theorem missingIvalue_le (nb : Int) (h1 : 1 ≤ nb) (h2 : nb ≤ 64) : missingIvalue nb = 2^nb.toNat - 1 := by
+  unfold missingIvalue
+  rw [if_neg (by omega)]
+  by_cases h : nb ≥ 64
+  · rw [if_pos h]; have : nb.toNat = 64 := by omega
+    rw [this]
+  · rw [if_neg h]
+
+/-- the raw value a decoder must assign to a subset of a listed column -/
+def decInc (nb : Int) (r0 k inc : Nat) : Nat :=
+  if inc % 2^k = missingIvalue k then missingIvalue nb else inc % 2^k + r0 % 2^nb.toNat
+
+theorem filter_length_eq {α} (p : α → Bool) (l : List α) (h : (l.filter p).length = l.length) : l.filter p = l := by
+  induction l with
+  | nil => rfl
+  | cons x xs ih =>
+    simp only [List.filter_cons] at h ⊢
+    split at h
+    · next hp => rw [if_pos hp, ih (by simpa using h)]
+    · next hp =>
+      have := List.length_filter_le p xs
+      simp at h; omega
+
+/-- **the encoder's choice is sound**: the local reference value fits the element, the increment
+width fits the 6-bit field and the element width, a constant column really is constant, and a listed
+column gives every subset back its raw value (missing as missing) -/
+theorem encNumCol_sound (nb : Int) (h1 : 1 ≤ nb) (h2 : nb ≤ 64) (vals : List Nat) (hne : vals ≠ [])
+    (hv : ∀ v ∈ vals, v ≤ missingIvalue nb)
+    (hspread : nb = 64 → ∀ a ∈ vals, ∀ b ∈ vals, a ≠ missingIvalue nb → b ≠ missingIvalue nb → a - b < 2^63 - 1) :
+    (encNumCol nb vals).1 ≤ missingIvalue nb ∧
+    ((encNumCol nb vals).2.1 : Int) ≤ nb ∧ (encNumCol nb vals).2.1 < 64 ∧
+    ((encNumCol nb vals).2.1 = 0 → (encNumCol nb vals).2.2 = [] ∧ ∀ v ∈ vals, v = (encNumCol nb vals).1) ∧
+    ((encNumCol nb vals).2.1 > 0 → (encNumCol nb vals).2.2.length = vals.length ∧
+      (encNumCol nb vals).2.2.map (decInc nb (encNumCol nb vals).1 (encNumCol nb vals).2.1) = vals) := by
+  have hm := missingIvalue_le nb h1 h2
+  have hpow : (2:Nat)^nb.toNat ≥ 2 := by
+    have : nb.toNat ≥ 1 := by omega
+    calc (2:Nat)^nb.toNat ≥ 2^1 := Nat.pow_le_pow_right (by omega) this
+      _ = 2 := by norm_num
+  unfold encNumCol
+  simp only
+  generalize hpres : vals.filter (fun x => decide (x ≠ missingIvalue nb)) = present
+  have hmem : ∀ v, v ∈ present ↔ v ∈ vals ∧ v ≠ missingIvalue nb := by
+    intro v; rw [← hpres]; simp
+  by_cases hempty : present = []
+  · -- every value missing
+    have hall : ∀ v ∈ vals, v = missingIvalue nb := by
+      intro v hvm
+      by_contra hc
+      have : v ∈ present := (hmem v).mpr ⟨hvm, hc⟩
+      rw [hempty] at this; simp at this
+    simp only [hempty, List.isEmpty_nil, if_true, List.length_nil, Nat.sub_zero, or_true]
+    exact ⟨Nat.le_refl _, by omega, by omega, fun _ => ⟨trivial, hall⟩, fun h => absurd h (by omega)⟩
+  · have hie : present.isEmpty = false := by cases present <;> simp_all
+    simp only [hie, Bool.false_eq_true, if_false]
+    obtain ⟨hmin1, hmin2⟩ := listMin_spec present (missingIvalue nb) hempty
+    obtain ⟨hmax1, hmax2⟩ := listMax_spec present (missingIvalue nb) hempty
+    have hminv := (hmem _).mp hmin2
+    have hmaxv := (hmem _).mp hmax2
+    have hminle := hv _ hminv.1
+    have hmaxle := hv _ hmaxv.1
+    have hlenle : present.length ≤ vals.length := by rw [← hpres]; exact List.length_filter_le _ _
+    have hplen : present.length > 0 := List.length_pos_iff.mpr hempty
+    have hvlen : vals.length > 0 := List.length_pos_iff.mpr hne
+    by_cases hc : (listMin present (missingIvalue nb) = listMax present (missingIvalue nb) ∧
+        vals.length - present.length = 0) ∨ vals.length - present.length = vals.length
+    · rw [if_pos hc]
+      simp only
+      refine ⟨hminle, by omega, by omega, fun _ => ⟨trivial, ?_⟩, fun h => absurd h (by omega)⟩
+      intro v hvm
+      rcases hc with ⟨heq, hnone⟩ | hallm
+      · have hfull : present = vals := by
+          rw [← hpres]; apply filter_length_eq; rw [hpres]; omega
+        have hvp : v ∈ present := by rw [hfull]; exact hvm
+        have := hmin1 v hvp
+        have := hmax1 v hvp
+        omega
+      · omega
+    · rw [if_neg hc]
+      simp only
+      have hsp : listMax present (missingIvalue nb) - listMin present (missingIvalue nb) < 2^64 - 1 := by
+        have : (2:Nat)^nb.toNat ≤ 2^64 := Nat.pow_le_pow_right (by omega) (by omega)
+        omega
+      obtain ⟨k1, k2, k3, k4⟩ := valueNbits_spec _ hsp
+      generalize hk : valueNbits (listMax present (missingIvalue nb) - listMin present (missingIvalue nb)) = k at *
+      have hknb : (k : Int) ≤ nb := by
+        by_contra hgt
+        have hlt : nb.toNat < k := by omega
+        have := k4 nb.toNat (by omega) hlt
+        omega
+      have hk64 : k < 64 := by
+        by_contra hge
+        have hk64 : k = 64 := by omega
+        have hnb64 : nb = 64 := by omega
+        have := hspread hnb64 _ hmaxv.1 _ hminv.1 hmaxv.2 hminv.2
+        have := k4 63 (by omega) (by omega)
+        omega
+      refine ⟨hminle, hknb, hk64, fun h => absurd h (by omega), fun _ => ⟨by simp, ?_⟩⟩
+      rw [List.map_map]
+      conv => rhs; rw [← List.map_id vals]
+      apply List.map_congr_left
+      intro v hvm
+      have hmk := missingIvalue_nat k k1 hk64
+      have hpk : (2:Nat)^k ≥ 2 := by
+        calc (2:Nat)^k ≥ 2^1 := Nat.pow_le_pow_right (by omega) k1
+          _ = 2 := by norm_num
+      simp only [Function.comp, id, decInc]
+      by_cases hvmiss : v = missingIvalue nb
+      · rw [if_pos hvmiss, hmk, Nat.mod_eq_of_lt (by omega), if_pos rfl, hvmiss]
+      · rw [if_neg hvmiss]
+        have hvp : v ∈ present := (hmem v).mpr ⟨hvm, hvmiss⟩
+        have := hmin1 v hvp
+        have := hmax1 v hvp
+        have hlt : v - listMin present (missingIvalue nb) < 2^k - 1 := by omega
+        rw [Nat.mod_eq_of_lt (by omega), hmk, if_neg (by omega), Nat.mod_eq_of_lt (by omega)]
+        omega
+
+/-! ### compressed numeric column: round trip -/
+
+theorem zipWithNodes_map (f : Node → Nat → Node) (h : Nat → Nat) : ∀ (ns : List Node) (vs : List Nat),
+    zipWithNodes f ns (vs.map h) = zipWithNodes (fun n v => f n (h v)) ns vs := by
+  intro ns
+  induction ns with
+  | nil => intro vs; cases vs <;> simp [zipWithNodes]
+  | cons n ns ih => intro vs; cases vs with
+    | nil => simp [zipWithNodes]
+    | cons v vs => simp [zipWithNodes, ih]
+
+theorem zipWithNodes_const (f : Node → Nat → Node) (c : Nat) : ∀ (ns : List Node) (vs : List Nat),
+    ns.length = vs.length → (∀ v ∈ vs, v = c) → zipWithNodes f ns vs = ns.map (fun n => f n c) := by
+  intro ns
+  induction ns with
+  | nil => intro vs _ _; cases vs <;> simp [zipWithNodes]
+  | cons n ns ih => intro vs hl hc; cases vs with
+    | nil => simp at hl
+    | cons v vs =>
+      simp only [zipWithNodes, List.map_cons]
+      rw [hc v (by simp), ih vs (by simpa using hl) (fun x hx => hc x (by simp [hx]))]
+
+theorem Range.slice_map {α β} (g : Range) (f : α → β) (l : List α) : g.slice (l.map f) = (g.slice l).map f := by
+  unfold Range.slice; split <;> simp [List.map_take, List.map_drop]
+
+theorem Range.slice_length {α} (g : Range) (hg : g.OK) (l : List α) (hl : l.length = g.nsub) :
+    (g.slice l).length = g.count := by
+  unfold Range.slice Range.count
+  rcases hg with h | ⟨a, b, c⟩
+  · rw [if_neg (by omega), if_neg (by omega)]; exact hl
+  · rw [if_pos (by omega), if_pos (by omega), List.length_take, List.length_drop]; omega
+
+theorem Range.slice_mem {α} (g : Range) (l : List α) (x : α) (h : x ∈ g.slice l) : x ∈ l := by
+  unfold Range.slice at h
+  split at h
+  · exact List.mem_of_mem_drop (List.mem_of_mem_take h)
+  · exact h
+
+/-- **C02, numeric column.** Whatever raw values (missing included) the subsets hold for one
+element, the column `bufr_put_numeric_compressed` writes is read back by
+`bufr_get_numeric_compressed` as exactly those raw values, subset by subset — for the whole
+dataset or for any slice `from..to` — and the cursor ends right after the column. -/
+theorem numeric_column_roundtrip (w : W) (hI : WInv w) (n0 : Node) (rest : List Node)
+    (h1 : 1 ≤ n0.enc.nbits) (h2 : n0.enc.nbits ≤ 64)
+    (hv : ∀ n ∈ n0 :: rest, value2bits n ≤ missingIvalue n0.enc.nbits)
+    (hspread : n0.enc.nbits = 64 → ∀ a ∈ n0 :: rest, ∀ b ∈ n0 :: rest,
+      value2bits a ≠ missingIvalue n0.enc.nbits → value2bits b ≠ missingIvalue n0.enc.nbits →
+      value2bits a - value2bits b < 2^63 - 1)
+    (r : R) (hIr : RInv r) (tail : List Bool)
+    (hb : w.bits ++ r.bits = (putNumericCompressed w (n0 :: rest)).bits ++ tail)
+    (cb : Node) (col : List Node) (hnb : cb.enc.nbits = n0.enc.nbits)
+    (g : Range) (hg : g.OK) (hn : g.nsub = (n0 :: rest).length) (hcol : (cb :: col).length = g.count) :
+    ∃ r', getNumericCompressed r (cb :: col) g =
+        some (r', zipWithNodes setBitsValue (cb :: col) (g.slice ((n0 :: rest).map value2bits))) ∧
+      r'.bits = tail ∧ RInv r' := by
+  obtain ⟨pb, _⟩ := putNumericCompressed_bits w hI n0 rest
+  rw [pb, List.append_assoc] at hb
+  have hb' := List.append_cancel_left hb
+  generalize hvals : (n0 :: rest).map value2bits = vals at *
+  have hne : vals ≠ [] := by rw [← hvals]; simp
+  have hvv : ∀ v ∈ vals, v ≤ missingIvalue n0.enc.nbits := by
+    intro v hvm; rw [← hvals] at hvm
+    obtain ⟨n, hn1, hn2⟩ := List.mem_map.mp hvm
+    rw [← hn2]; exact hv n hn1
+  have hsp : n0.enc.nbits = 64 → ∀ a ∈ vals, ∀ b ∈ vals, a ≠ missingIvalue n0.enc.nbits →
+      b ≠ missingIvalue n0.enc.nbits → a - b < 2^63 - 1 := by
+    intro h64 a ha b hb2 hna hnb2
+    rw [← hvals] at ha hb2
+    obtain ⟨na, ha1, ha2⟩ := List.mem_map.mp ha
+    obtain ⟨nb', hb1, hb3⟩ := List.mem_map.mp hb2
+    subst ha2 hb3
+    exact hspread h64 na ha1 nb' hb1 hna hnb2
+  obtain ⟨s1, s2, s3, s4, s5⟩ := encNumCol_sound n0.enc.nbits h1 h2 vals hne hvv hsp
+  have hvlen : vals.length = g.nsub := by rw [← hvals, hn]; simp
+  generalize encNumCol n0.enc.nbits vals = plan at *
+  obtain ⟨r0, k, incs⟩ := plan
+  simp only at s1 s2 s3 s4 s5 hb'
+  have hm := missingIvalue_le n0.enc.nbits h1 h2
+  have hpow : (2:Nat)^n0.enc.nbits.toNat ≥ 2 := by
+    have : n0.enc.nbits.toNat ≥ 1 := by omega
+    calc (2:Nat)^n0.enc.nbits.toNat ≥ 2^1 := Nat.pow_le_pow_right (by omega) this
+      _ = 2 := by norm_num
+  have hr0 : r0 % 2^n0.enc.nbits.toNat = r0 := Nat.mod_eq_of_lt (by omega)
+  by_cases hk : k = 0
+  · subst hk
+    obtain ⟨hinc, hall⟩ := s4 rfl
+    subst hinc
+    simp only [List.flatMap_nil, List.append_nil] at hb'
+    rw [← hnb] at hb'
+    obtain ⟨r', e, hbr, hIr'⟩ := getNumericCompressed_const r cb col g r0 tail hIr (by omega) hb'
+    refine ⟨r', ?_, hbr, hIr'⟩
+    rw [e, hnb, hr0]
+    congr 1; congr 1
+    symm
+    apply zipWithNodes_const
+    · rw [hcol, Range.slice_length g hg vals hvlen]
+    · intro v hvm; exact hall v (Range.slice_mem g vals v hvm)
+  · obtain ⟨hilen, hdec⟩ := s5 (by omega)
+    rw [← hnb] at hb' s2
+    obtain ⟨r', e, hbr, hIr'⟩ := getNumericCompressed_listed r cb col g r0 k incs tail hIr (by omega)
+      (by omega) s2 s3 hg (by omega) hb'
+    refine ⟨r', ?_, hbr, hIr'⟩
+    rw [e]
+    congr 1; congr 1
+    rw [zipWithNodes_map, ← hdec, Range.slice_map, zipWithNodes_map]
+    congr 1
+    funext n v
+    simp only [decInc, hnb]
+
+/-! ### one element, uncompressed -/
+
+theorem putPadString_bits (w : W) (s : List Nat) (enclen : Nat) (hI : WInv w) :
+    (w.putPadString s enclen).bits =
+      w.bits ++ ((s.take enclen ++ List.replicate (enclen - s.length) 32).flatMap (bitsMSB 8)) ∧
+    WInv (w.putPadString s enclen) := by
+  unfold W.putPadString
+  obtain ⟨a1, a2⟩ := foldl_putbits_bits 8 id (s.take enclen) w hI
+  obtain ⟨b1, b2⟩ := foldl_putbits_bits 8 id (List.replicate (enclen - s.length) 32) _ a2
+  simp only [id] at a1 a2 b1 b2
+  exact ⟨by rw [b1, a1, List.append_assoc, List.flatMap_append]; simp, b2⟩
+
+/-- the octets a character element occupies: the value left-justified, cut or blank-padded to the
+element width -/
+def paddedString (n : Node) : List Nat :=
+  let len := (n.enc.nbits / 8).toNat
+  (valueString n).take len ++ List.replicate (len - (valueString n).length) 32
+
+/-- what one node contributes to an uncompressed Section 4: nothing when it carries no data,
+otherwise its associated field followed by its value in exactly the element width -/
+def nodeBits (n : Node) : List Bool :=
+  if n.flags.skipped then []
+  else
+    (if n.enc.afNbits > 0 ∧ n.afW > 0 then bitsMSB n.afW n.afBits else []) ++
+    (match n.enc.type with
+     | .ccitt => (paddedString n).flatMap (bitsMSB 8)
+     | .ieee => bitsMSB (if n.enc.nbits = 64 then 64 else 32) (valueBits n)
+     | .numeric | .chngRef | .codetable | .flagtable => bitsMSB n.enc.nbits.toNat (valueBits n)
+     | _ => [])
+
+/-- **wire format of one element** (`bufr_put_desc_value`) -/
+theorem putDescValue_bits (w : W) (hI : WInv w) (n : Node) :
+    (putDescValue w n).bits = w.bits ++ nodeBits n ∧ WInv (putDescValue w n) := by
+  unfold putDescValue nodeBits
+  by_cases hs : n.flags.skipped
+  · simp [hs, hI]
+  · simp only [hs, Bool.false_eq_true, if_false]
+    have haf : ∃ w1, (if n.enc.afNbits > 0 ∧ n.afW > 0 then w.putbits n.afBits n.afW else w) = w1 ∧
+        w1.bits = w.bits ++ (if n.enc.afNbits > 0 ∧ n.afW > 0 then bitsMSB n.afW n.afBits else []) ∧ WInv w1 := by
+      by_cases ha : n.enc.afNbits > 0 ∧ n.afW > 0
+      · rw [if_pos ha, if_pos ha]
+        obtain ⟨p1, p2⟩ := putbits_bits w n.afBits n.afW hI
+        exact ⟨_, rfl, p1, p2⟩
+      · rw [if_neg ha, if_neg ha]; exact ⟨w, rfl, by simp, hI⟩
+    obtain ⟨w1, e1, hb1, hI1⟩ := haf
+    rw [e1]
+    cases ht : n.enc.type <;> simp only []
+    all_goals first
+      | (obtain ⟨p1, p2⟩ := putbits_bits w1 (valueBits n) n.enc.nbits.toNat hI1
+         exact ⟨by rw [p1, hb1, List.append_assoc], p2⟩)
+      | (obtain ⟨p1, p2⟩ := putPadString_bits w1 (valueString n) (n.enc.nbits / 8).toNat hI1
+         exact ⟨by rw [p1, hb1, List.append_assoc]; rfl, p2⟩)
+      | (obtain ⟨p1, p2⟩ := putbits_bits w1 (valueBits n) (if n.enc.nbits = 64 then 64 else 32) hI1
+         exact ⟨by rw [p1, hb1, List.append_assoc], p2⟩)
+      | exact ⟨by rw [hb1]; simp, hI1⟩
+
+/-- **wire format of an uncompressed Section 4**: the elements of subset 1 in expansion order, then
+those of subset 2, … with no gaps -/
+theorem encode_subsets_bits (ss : List (List Node)) : ∀ (w : W), WInv w →
+    (ss.foldl (fun w s => s.foldl putDescValue w) w).bits = w.bits ++ ss.flatMap (fun s => s.flatMap nodeBits) ∧
+    WInv (ss.foldl (fun w s => s.foldl putDescValue w) w) := by
+  have one : ∀ (s : List Node) (w : W), WInv w →
+      (s.foldl putDescValue w).bits = w.bits ++ s.flatMap nodeBits ∧ WInv (s.foldl putDescValue w) := by
+    intro s
+    induction s with
+    | nil => intro w h; simp [h]
+    | cons n ns ih =>
+      intro w h
+      obtain ⟨p1, p2⟩ := putDescValue_bits w h n
+      obtain ⟨q1, q2⟩ := ih _ p2
+      simp only [List.foldl_cons, List.flatMap_cons]
+      exact ⟨by rw [q1, p1, List.append_assoc], q2⟩
+  induction ss with
+  | nil => intro w h; simp [h]
+  | cons s ss ih =>
+    intro w h
+    obtain ⟨p1, p2⟩ := one s w h
+    obtain ⟨q1, q2⟩ := ih _ p2
+    simp only [List.foldl_cons, List.flatMap_cons]
+    exact ⟨by rw [q1, p1, List.append_assoc], q2⟩
+
+/-! ### one element, uncompressed: reader -/
+
+theorem getstring_view : ∀ (cs : List Nat) (r : R) (rest : List Bool), RInv r → cs ≠ [] →
+    r.bits = cs.flatMap (bitsMSB 8) ++ rest →
+    ∃ r', r.getstring cs.length = (cs.map (· % 256), 0, r') ∧ r'.bits = rest ∧ RInv r' := by
+  intro cs
+  induction cs with
+  | nil => intro r rest _ h; exact absurd rfl h
+  | cons c cs ih =>
+    intro r rest hI _ hb
+    rw [List.flatMap_cons, List.append_assoc] at hb
+    obtain ⟨r1, e1, hb1, hI1⟩ := getbits_view r 8 c _ hI (by omega) (by omega) hb
+    have hand : ∀ x : Nat, x % 256 &&& 255 = x % 256 := by
+      intro x
+      have h255 : (255 : Nat) = 2^8 - 1 := by norm_num
+      rw [h255, Nat.and_two_pow_sub_one_eq_mod]
+      norm_num
+    have e1' : r.getbits 8 = (c % 256, 0, r1) := by simpa using e1
+    by_cases hcs : cs = []
+    · subst hcs
+      refine ⟨r1, ?_, by simpa using hb1, hI1⟩
+      simp [R.getstring, e1', hand]
+    · obtain ⟨r2, e2, hb2, hI2⟩ := ih r1 rest hI1 hcs hb1
+      refine ⟨r2, ?_, hb2, hI2⟩
+      have hlen : cs.length ≠ 0 := by
+        intro h; exact hcs (List.length_eq_zero_iff.mp h)
+      simp only [List.length_cons, R.getstring, e1', e2, List.map_cons, hand]
+      simp [hlen]
+
+/-- the value `bufr_get_desc_value` stores in a node of the decoder's own list when the pending bits
+start with `nodeBits m` for an encoder node `m` of the same layout -/
+def readBack (n : Node) (m : Node) : Node :=
+  let n1 := mkvalNode n
+  let n2 := if n1.enc.afNbits > 0 ∧ n1.afW > 0 then { n1 with afBits := m.afBits % 2^n1.afW } else n1
+  match n2.enc.type with
+  | .ccitt => { n2 with val := n2.val.setString (some ((paddedString m).map (· % 256))) (n2.enc.nbits / 8).toNat }
+  | .ieee =>
+    if n2.enc.nbits = 64 then { n2 with val := n2.val.setDouble (SF.ofDoubleBits (valueBits m % 2^64)) }
+    else { n2 with val := n2.val.setFloat (SF.ofFloatBits (valueBits m % 2^n2.enc.nbits.toNat)) }
+  | .numeric | .chngRef | .codetable | .flagtable =>
+    { n2 with val := valueOfBits n2 n2.val (valueBits m % 2^n2.enc.nbits.toNat) }
+  | _ => n2
+
+/-- the layout facts the decoder's node must share with the encoder's -/
+structure SameLayout (n m : Node) : Prop where
+  enc : n.enc = m.enc
+  skipped : n.flags.skipped = m.flags.skipped
+  afW : (mkvalNode n).afW = m.afW
+  hasVal : (mkvalNode n).val.isSome = true
+
+/-- **one element read back** (`bufr_get_desc_value`) for the element kinds whose width the
+library supports (1..64 bits, whole octets for characters, 32/64 for IEEE) -/
+theorem getDescValue_view (r : R) (hI : RInv r) (n m : Node) (rest : List Bool) (hl : SameLayout n m)
+    (hns : m.flags.skipped = false)
+    (hw : match m.enc.type with
+          | .ccitt => 8 ≤ m.enc.nbits
+          | .ieee => m.enc.nbits = 32 ∨ m.enc.nbits = 64
+          | .numeric | .chngRef | .codetable | .flagtable => 1 ≤ m.enc.nbits ∧ m.enc.nbits ≤ 64
+          | _ => True)
+    (haf : m.afW ≤ 64)
+    (hb : r.bits = nodeBits m ++ rest) :
+    ∃ r', getDescValue r n = some (r', readBack n m) ∧ r'.bits = rest ∧ RInv r' := by
+  obtain ⟨henc, hsk, hafw, hval⟩ := hl
+  unfold getDescValue
+  rw [hsk, hns]
+  simp only [Bool.false_eq_true, if_false, hval, Bool.not_true]
+  unfold nodeBits at hb
+  rw [hns] at hb
+  simp only [Bool.false_eq_true, if_false] at hb
+  have hmk : (mkvalNode n).enc = m.enc := by
+    rw [← henc]; unfold mkvalNode
+    by_cases h1 : n.val.isSome
+    · simp [h1]
+    · simp only [h1]
+      by_cases h2 : (freshVal n.enc).isSome <;> simp [h2]
+  -- associated field
+  have hafr : ∃ r1, (if (mkvalNode n).enc.afNbits > 0 ∧ (mkvalNode n).afW > 0 then
+        (let (v, e, r') := r.getbits (mkvalNode n).afW
+         if e < 0 then none else some (r', { mkvalNode n with afBits := v }))
+      else some (r, mkvalNode n)) =
+      some (r1, if (mkvalNode n).enc.afNbits > 0 ∧ (mkvalNode n).afW > 0 then
+                  { mkvalNode n with afBits := m.afBits % 2^(mkvalNode n).afW } else mkvalNode n) ∧
+      RInv r1 ∧
+      r1.bits = (match m.enc.type with
+        | .ccitt => (paddedString m).flatMap (bitsMSB 8)
+        | .ieee => bitsMSB (if m.enc.nbits = 64 then 64 else 32) (valueBits m)
+        | .numeric | .chngRef | .codetable | .flagtable => bitsMSB m.enc.nbits.toNat (valueBits m)
+        | _ => []) ++ rest := by
+    by_cases ha : (mkvalNode n).enc.afNbits > 0 ∧ (mkvalNode n).afW > 0
+    · have ha' : m.enc.afNbits > 0 ∧ m.afW > 0 := by rw [← hmk, ← hafw]; exact ha
+      rw [if_pos ha, if_pos ha]
+      rw [if_pos ha', List.append_assoc] at hb
+      rw [← hafw] at hb
+      obtain ⟨r1, e1, hb1, hI1⟩ := getbits_view r _ _ _ hI ha.2 (by rw [hafw]; exact haf) hb
+      refine ⟨r1, ?_, hI1, hb1⟩
+      simp [e1]
+    · have ha' : ¬ (m.enc.afNbits > 0 ∧ m.afW > 0) := by rw [← hmk, ← hafw]; exact ha
+      rw [if_neg ha, if_neg ha]
+      rw [if_neg ha'] at hb
+      exact ⟨r, rfl, hI, by simpa using hb⟩
+  obtain ⟨r1, e1, hI1, hb1⟩ := hafr
+  rw [e1]
+  simp only
+  generalize hn2 : (if (mkvalNode n).enc.afNbits > 0 ∧ (mkvalNode n).afW > 0 then
+      { mkvalNode n with afBits := m.afBits % 2^(mkvalNode n).afW } else mkvalNode n) = n2
+  have hn2enc : n2.enc = m.enc := by
+    rw [← hn2]; split <;> simp [hmk]
+  have hrb : readBack n m = (match n2.enc.type with
+      | .ccitt => { n2 with val := n2.val.setString (some ((paddedString m).map (· % 256))) (n2.enc.nbits / 8).toNat }
+      | .ieee =>
+        if n2.enc.nbits = 64 then { n2 with val := n2.val.setDouble (SF.ofDoubleBits (valueBits m % 2^64)) }
+        else { n2 with val := n2.val.setFloat (SF.ofFloatBits (valueBits m % 2^n2.enc.nbits.toNat)) }
+      | .numeric | .chngRef | .codetable | .flagtable =>
+        { n2 with val := valueOfBits n2 n2.val (valueBits m % 2^n2.enc.nbits.toNat) }
+      | _ => n2) := by
+    unfold readBack; simp only [hn2]
+  rw [hrb, hn2enc]
+  cases ht : m.enc.type <;> simp only [ht] at hw hb1 ⊢
+  case ccitt =>
+    have hlen : (paddedString m).length = (m.enc.nbits / 8).toNat := by
+      unfold paddedString; simp only [List.length_append, List.length_take, List.length_replicate]; omega
+    have hne : paddedString m ≠ [] := by
+      intro h; rw [h] at hlen; simp at hlen; omega
+    obtain ⟨r2, e2, hb2, hI2⟩ := getstring_view (paddedString m) r1 rest hI1 hne hb1
+    rw [hlen] at e2
+    refine ⟨r2, ?_, hb2, hI2⟩
+    simp [e2]
+  case ieee =>
+    rcases hw with h32 | h64
+    · rw [h32] at hb1 ⊢
+      obtain ⟨r2, e2, hb2, hI2⟩ := getbits_view r1 32 (valueBits m) rest hI1 (by omega) (by omega) (by simpa using hb1)
+      exact ⟨r2, by simp [e2], hb2, hI2⟩
+    · rw [h64] at hb1 ⊢
+      obtain ⟨r2, e2, hb2, hI2⟩ := getbits_view r1 64 (valueBits m) rest hI1 (by omega) (by omega) (by simpa using hb1)
+      exact ⟨r2, by simp [e2], hb2, hI2⟩
+  case numeric | chngRef | codetable | flagtable =>
+    obtain ⟨r2, e2, hb2, hI2⟩ := getbits_view r1 m.enc.nbits.toNat (valueBits m) rest hI1 (by omega) (by omega) hb1
+    exact ⟨r2, by simp [e2], hb2, hI2⟩
+  all_goals exact ⟨r1, rfl, by simpa using hb1, hI1⟩
 
 end Bufr
